@@ -281,10 +281,17 @@ class SimStream(io.TextIOBase):
         os.lseek(self._keep, 0, os.SEEK_SET)
 
 
-def run_command(argv):
+def run_command(argv, embedded=False):
     """`python -m graphtage <args>`, in-process: executes graphtage/__main__.py the way `-m` does (runpy, sys.argv set,
     `__name__ == "__main__"`), so that no assumption is made about where `main` lives or how it is called.
-    Returns (exit_status, text_python_would_print_to_stderr, escaped_exception)."""
+    Returns (exit_status, text_python_would_print_to_stderr, escaped_exception).
+
+    embedded=True is for in-process HISTORIES of commands (C07 part B): there the module must be imported once and
+    its entry point called repeatedly, exactly like the installed console script (`graphtage =
+    graphtage.__main__:main`, i.e. `sys.argv` set and `main()` called without arguments) would be by a caller that
+    runs it several times - `runpy` would re-create the module's globals for every call and thereby wipe whatever
+    state one call leaves behind at module level (a seeded change was missed that way, DESIGN 10.4).  Falls back to
+    runpy when there is no such entry point."""
     import gc
     import runpy
     old = sys.argv
@@ -298,10 +305,22 @@ def run_command(argv):
         raise SystemExit(status)
     sys.argv = list(argv)
     os._exit = _simulated_exit
+    entry = None
+    if embedded:
+        try:
+            import importlib
+            entry = getattr(importlib.import_module("graphtage.__main__"), "main", None)
+        except Exception:                  # noqa: no importable entry point: the `-m` way still works
+            entry = None
+        if not callable(entry):
+            entry = None
     try:
         try:
-            runpy.run_module("graphtage", run_name="__main__", alter_sys=False)
-            ret = None                     # fell off the end of the module: exit status 0
+            if entry is not None:
+                ret = entry()              # the console script: sys.exit(main())
+            else:
+                runpy.run_module("graphtage", run_name="__main__", alter_sys=False)
+                ret = None                 # fell off the end of the module: exit status 0
         finally:
             sys.argv = old
             os._exit = old_exit
